@@ -376,7 +376,7 @@ impl CallingConvention {
                     argument_registers,
                     preserved_registers,
                     trashed_registers,
-                    stack_argument_offset: 4,
+                    stack_argument_offset: 8,
                     stack_argument_length: 4,
                     return_address_type: return_type,
                     return_register: il::scalar("r3", 32),
